@@ -406,6 +406,8 @@ func RunCase(line string) (impl, fail, sig string, err error) {
 			return shapeImpl(c), "", "", nil
 		case "!layout":
 			return runLayoutLine(items)
+		case "!twin":
+			return runTwinLine(items)
 		case "!read":
 			if len(items) != 6 {
 				return "", "", "", errors.New("!read case: want 6 items")
